@@ -884,6 +884,8 @@ class Engine:
         ctx = it.ctx
         target = c.target
         self.current_report.uses_contracts.add(target)
+        if getattr(c, "assumed", False):
+            ctx.trusted.add(f"assumed-contract:{getattr(c, 'key', target)} (not proved; see its docstring)")
         cm = self.contract_module(c)
         sfr = Frame(cm, {}, closure=None)
         sfr.is_spec_root = True
